@@ -4777,7 +4777,21 @@ class State:
                             .consecutive_all_in_completion_betting_or_raising_amounts  # noqa: E501
                         ),
                     )
-                    < self.completion_betting_or_raising_amount
+                    < max(
+                        self.completion_betting_or_raising_amount,
+                        (
+                            0
+                            if (
+                                self.betting_structure
+                                == BettingStructure.FIXED_LIMIT
+                            )
+                            else (
+                                self
+                                .street
+                                .min_completion_betting_or_raising_amount
+                            )
+                        ),
+                    )
                 )
                 and player_index in self.acted_player_indices
         ):
@@ -4992,6 +5006,20 @@ class State:
                             cannot be done.
         """
         amount = self.verify_completion_betting_or_raising_to(amount)
+
+        assert self.street is not None
+
+        full_amount = self.completion_betting_or_raising_amount
+
+        if self.betting_structure != BettingStructure.FIXED_LIMIT:
+            full_amount = max(
+                full_amount,
+                self.street.min_completion_betting_or_raising_amount,
+            )
+
+        if not self.completion_status:
+            full_amount += max(self.bets)
+
         player_index = self._pop_actor_index()
 
         completion_betting_or_raising_amount = amount - max(self.bets)
@@ -5015,10 +5043,7 @@ class State:
 
         self.opener_index = player_index
 
-        if (
-                completion_betting_or_raising_amount
-                >= self.completion_betting_or_raising_amount
-        ):
+        if self.stacks[player_index] or amount >= full_amount:
             self.acted_player_indices.clear()
             self.acted_player_indices.add(player_index)
 
@@ -5028,13 +5053,7 @@ class State:
         )
         self.completion_betting_or_raising_count += 1
 
-        if (
-                self.stacks[player_index]
-                or (
-                    completion_betting_or_raising_amount
-                    >= self.completion_betting_or_raising_amount
-                )
-        ):
+        if self.stacks[player_index] or amount >= full_amount:
             (
                 self
                 .consecutive_all_in_completion_betting_or_raising_amounts
